@@ -209,16 +209,15 @@ static int numNibbles(int value) {
   if (value == 0) {
     return 1;
   }
-  if (value < 0 && std::abs(value) < 16) {
+  // Magnitude as unsigned so that INT_MIN is representable.
+  unsigned magnitude = value < 0 ? 0U - static_cast<unsigned>(value) : static_cast<unsigned>(value);
+  if (value < 0 && magnitude < 16) {
     // Account for NFIX required to add leading 1s.
     return 2;
   }
-  if (value < 0) {
-    value = std::abs(value);
-  }
   int n = 1;
-  while (value >= 16) {
-    value >>= 4;
+  while (magnitude >= 16) {
+    magnitude >>= 4;
     n++;
   }
   return n;
